@@ -25,6 +25,10 @@ type StageIO struct {
 	CheckFile func(path string)
 	// TempPath is the job's temporary directory (real runs).
 	TempPath string
+	// Symlink creates a symbolic link (real runs).
+	Symlink func(target, link string)
+	// OutsideDir is a directory outside the pipestance (real runs).
+	OutsideDir string
 	// RealPath, when set, makes FILEW report its files by their physical
 	// path (all symlinks resolved), as a stage using realpath() would.
 	RealPath func(path string) string
@@ -62,12 +66,37 @@ func collectPaths(v *Val, out []string) []string {
 // filewValue builds the value of a FILEW output of type t whose files are
 // named after tag under dir, writing each file.
 func filewValue(p *Program, io *StageIO, t *T, n int64, dir, tag string, pad *int) *Val {
+	mode := int64(0)
+	if io.Args != nil && io.Args.K == VObj {
+		if m, ok := io.Args.O["mode"]; ok {
+			mode = m.Int()
+		}
+	}
 	write := func(name string) *Val {
 		pth := dir + "/" + name
 		if dir == "" {
 			pth = "@" + name
 		}
 		*pad += 13
+		switch mode {
+		case 1: // null instead of a file
+			return Null()
+		case 2: // names a file that was never written
+			return Str(pth)
+		case 3: // a relative symlink to the real file
+			if io.WriteFile != nil && io.Symlink != nil {
+				real := pth + ".real"
+				io.WriteFile(real, FileContent(real, *pad))
+				io.Symlink(name[strings.LastIndex(name, "/")+1:]+".real", pth)
+				return Str(pth)
+			}
+		case 4: // a file outside the pipestance
+			if io.WriteFile != nil && io.OutsideDir != "" {
+				out := io.OutsideDir + "/" + strings.ReplaceAll(name, "/", "_")
+				io.WriteFile(out, FileContent(out, *pad))
+				return Str(out)
+			}
+		}
 		if io.WriteFile != nil {
 			io.WriteFile(pth, FileContent(pth, *pad))
 		}
@@ -83,6 +112,20 @@ func filewValue(p *Program, io *StageIO, t *T, n int64, dir, tag string, pad *in
 		return write(tag)
 	case TPath:
 		d := tag + "_dir"
+		if mode == 1 {
+			return Null()
+		}
+		if mode == 2 {
+			return Str(dir + "/" + d)
+		}
+		if mode == 4 {
+			// a directory outside the pipestance
+			if io.WriteFile != nil && io.OutsideDir != "" {
+				od := io.OutsideDir + "/" + d
+				io.WriteFile(od+"/inner.dat", FileContent(od+"/inner.dat", *pad))
+				return Str(od)
+			}
+		}
 		write(d + "/inner.dat")
 		if dir == "" {
 			return Str("@" + d)
@@ -251,7 +294,7 @@ func Exec(p *Program, io *StageIO) (*StageResult, error) {
 		pad := 100
 		for _, o := range st.Outs {
 			if io.OutsTemplate != nil && io.OutsTemplate.K == VObj {
-				if tv := io.OutsTemplate.O[o.Name]; tv != nil && tv.K == VStr && (o.T.K == TFiletype || o.T.K == TFile) {
+				if tv := io.OutsTemplate.O[o.Name]; tv != nil && tv.K == VStr && (o.T.K == TFiletype || o.T.K == TFile) && argOf(io, "mode").Int() == 0 {
 					pad += 13
 					if io.WriteFile != nil {
 						io.WriteFile(tv.S, FileContent(tv.S, pad))
